@@ -17,7 +17,10 @@ func InitGenesis(ctx sdk.Context, k keeper.Keeper, data types.GenesisState) {
 			k.SetRewardRule(ctx, pool.Id, r)
 		}
 		k.SetPool(ctx, pool)
-		if !k.Expired(ctx, pool) {
+		// a pool that has not passed its end height is still active. k.Expired cannot
+		// be asked here: at the end height itself it consults the queue entry that is
+		// only being restored now, and would report the pool as expired
+		if ctx.BlockHeight() <= pool.EndHeight {
 			k.EnqueueActivePool(ctx, pool.Id, pool.EndHeight)
 		}
 	}
